@@ -533,6 +533,12 @@ struct PmCaseEnd {
 			l_Objs.clear();
 			l_Specs.clear();
 			l_UserPerms = "-";
+			// global constants declared by pm_glob: back to what they were before the case
+			for (auto it = l_SavedGlobals.rbegin(); it != l_SavedGlobals.rend(); ++it) {
+				if (it->existed) ScriptGlobal::Set(it->name, it->old);
+				else ScriptGlobal::GetGlobals()->Remove(it->name);
+			}
+			l_SavedGlobals.clear();
 		});
 	}
 } l_PmCaseEnd;
